@@ -218,6 +218,31 @@ def _setsketch(ctx, facts):
     return n
 
 
+def regvalue_rule(ctx, facts):
+    """REGVALUE: the candidate register value of SetSketcher::sketch is max(0, min(q+1, floor(1 - log_b x_j))) with
+    log_b x = ln(x)/lnb — the truncation applied to (1 - log_b x), clamped to [0, q+1]"""
+    ctx.rule("REGVALUE", "the value offered to a SetSketch register is max(0, min(q+1, floor(1 - ln(x_j)/lnb))): floor applied to "
+                         "(1 - log_b x_j) as a whole, then clamped to [0, q+1] (either clamp order)")
+    fid = SS + "sketch"
+    fn = facts.fn(fid)
+    cand = setsketch_candidate(fn)
+    if cand is None:
+        ctx.violation("REGVALUE", fid, "cannot-establish: candidate", hirq.loc(fn), "no register guard `k > k_vec[i]` from which to read the candidate value")
+        return
+    c = cand.replace(" ", "")
+    FL = r"\(1(?:\.0)?-\((\w+)\.ln\(\)/self\.lnb\)\)\.floor\(\)"
+    Q1 = r"(?:\(1\+self\.q\)|\(self\.q\+1\))"
+    forms = [r"^0\.max\(%s\.min\(%s\)\)$" % (Q1, FL), r"^%s\.min\(0\.max\(%s\)\)$" % (Q1, FL),
+             r"^0\.max\(%s\.min\(%s\)\)$" % (FL, Q1), r"^std::cmp::max\(0,std::cmp::min\(%s,%s\)\)$" % (Q1, FL),
+             r"^std::cmp::max\(0,std::cmp::min\(%s,%s\)\)$" % (FL, Q1)]
+    if any(re.match(f_, c) for f_ in forms):
+        ctx.ok("REGVALUE", fid, "candidate = %s" % cand[:90], hirq.loc(fn))
+    else:
+        ctx.violation("REGVALUE", fid, "candidate formula", hirq.loc(fn),
+                      "the candidate register value is `%s`; expected max(0, min(q+1, floor(1 - ln(x_j)/lnb))) — e.g. `1 - floor(log_b x)` is the ceiling of "
+                      "(1 - log_b x) and shifts every register by one" % cand[:140])
+
+
 def setsketch_candidate(fn):
     """resolved normal form of the candidate register value k (the value compared with the current register)"""
     t = tree_of(fn)
@@ -478,6 +503,14 @@ def _exit_setsketch(ctx, facts):
     n = 0
     for (kind, node) in loop_exits(fn, loop):
         if kind == "iterator-exhausted":
+            # every item makes up to m draws, one per register: the range must be the full 0..m
+            fl = [f for f in for_loops(fn) if f["loop"] is loop]
+            rng = nf.nf(fl[0]["iter"], True, res=R) if fl else "?"
+            n += 1
+            if rng in ("std::ops::Range{start:0, end:self.m}", "std::ops::Range{start:0, end:self.k_vec.len()}"):
+                ctx.ok("EXIT", fid, "draw loop ranges over 0..m (one draw per register)", hirq.loc(node))
+            else:
+                ctx.violation("EXIT", fid, "draw range", hirq.loc(loop), "the draw loop of an item ranges over `%s`, not 0..self.m: some register is never offered a value of this item" % rng[:80])
             continue
         n += 1
         conds = nf.all_conditions(t, node, stop=loop, res=R)
